@@ -218,8 +218,47 @@ pub fn api_sweep(t: &mut Tally) {
 fn api_sweep_one(set_mask: usize, t: &mut Tally) {
     {
         let shapes: Vec<Shape> = SHAPES.iter().enumerate().filter(|(i, _)| set_mask >> i & 1 == 1).map(|(_, s)| s.real()).collect();
-        let set = ShapeSet::new(shapes);
+        // every way of building the same set: new, collect, default + insert in both orders,
+        // insert of duplicates, insert_all for the full set
+        let mut built: Vec<(&str, ShapeSet)> = vec![("new", ShapeSet::new(shapes.clone())), ("collect", shapes.iter().copied().collect())];
+        let mut a = ShapeSet::default();
+        for sh in &shapes {
+            a.insert(*sh);
+        }
+        built.push(("default + insert", a));
+        let mut b = ShapeSet::default();
+        for sh in shapes.iter().rev() {
+            b.insert(*sh);
+            b.insert(*sh);
+        }
+        built.push(("default + insert (reverse, twice)", b));
+        let mut c = ShapeSet::new(shapes.iter().take(1).copied());
+        for sh in shapes.iter().skip(1) {
+            c.insert(*sh);
+        }
+        built.push(("new(first) + insert(rest)", c));
+        if set_mask == 15 {
+            let mut d = ShapeSet::default();
+            d.insert_all();
+            built.push(("insert_all", d));
+        }
         let flag = |i: usize| set_mask >> i & 1 == 1;
+        for (how, other) in &built[1..] {
+            for s in SHAPES {
+                t.evaluations += 1;
+                if other.contains(&s.real()) != built[0].1.contains(&s.real()) || other.is_empty() != built[0].1.is_empty() || other.to_string() != built[0].1.to_string() {
+                    t.violate(Violation {
+                        key: format!("C18 api set={set_mask:#06b} built by {how} :: differs from ShapeSet::new on {s:?}"),
+                        what: format!("ShapeSet {set_mask:#06b} built by `{how}`: contains({s:?}) = {}, is_empty = {}, Display `{other}`; built by `new`: {}, {}, `{}`", other.contains(&s.real()), other.is_empty(), built[0].1.contains(&s.real()), built[0].1.is_empty(), built[0].1),
+                        case: json!({"engine": "shape-api", "set": set_mask}),
+                        detail: json!({}),
+                    });
+                }
+            }
+        }
+        let set = built.swap_remove(2).1; // the table below is checked on the insert-built set
+        let set_new = ShapeSet::new(shapes);
+        let _ = &set_new;
         for (s, deco) in SHAPES.iter().flat_map(|s| ["", " = 3"].into_iter().map(move |d| (*s, d))) {
             let want = admits(flag(0), flag(1), flag(2), flag(3), s);
             let di: syn::DeriveInput = syn::parse_str(&format!("enum E {{ #[doc = \"d\"] {}{deco} }}", s.body("V"))).unwrap();
